@@ -157,8 +157,17 @@ Definition is_guard_entry (e : entry) : bool :=
 Definition is_guard_ientry (e : ientry) : bool :=
   match e with IC _ _ _ isg _ _ _ _ _ _ _ => isg | _ => false end.
 
-Definition log_eqb (fl : flags) (ambc : bool) (ml : list entry) (il : list ientry) : bool :=
+(* names u500.. are plain attributes of their provider (read with getattr, no call to observe): the
+   model treats them as callbacks, the driver cannot log them *)
+Definition is_silent_entry (e : entry) : bool :=
+  match e with
+  | ECall _ _ c _ _ _ _ _ _ _ => match cb_name c with NUser k => Nat.leb 500 k | _ => false end
+  | _ => false
+  end.
+
+Definition log_eqb (fl : flags) (ambc : bool) (ml0 : list entry) (il : list ientry) : bool :=
   if negb (f_ids fl || f_ctx fl || f_nested fl || f_depth fl) then true else
+  let ml := filter (fun e => negb (is_silent_entry e)) ml0 in
   let ml' := if ambc then filter (fun e => negb (is_guard_entry e)) ml else ml in
   let il' := if ambc then filter (fun e => negb (is_guard_ientry e)) il else il in
   blocks_match fl (blocks None [] ml') il'.
@@ -224,6 +233,12 @@ Definition fl_C05 := {| f_val := true; f_exn := true; f_field := true; f_allowed
 Definition verdict_C05 := verdict_with fl_C05.
 Definition verdict_C05_any (c : case + nat) : nat :=
   match c with inl k => verdict_C05 k | inr 1 => 0 | inr _ => 2 end.
+(* C12: per-provider callback logs with their arguments, whether guarded transitions fire *)
+Definition fl_C12 := {| f_val := false; f_exn := true; f_field := true; f_allowed := false;
+                        f_ids := true; f_ctx := true; f_nested := false; f_depth := false |}.
+Definition verdict_C12 := verdict_with fl_C12.
+Definition verdict_C12_any (c : case + nat) : nat :=
+  match c with inl k => verdict_C12 k | inr 1 => 0 | inr _ => 2 end.
 Definition verdict_all := verdict_with fl_all.
 Definition verdict_C01 := verdict_with fl_C01.
 Definition verdict_C02 := verdict_with fl_C02.
